@@ -19,7 +19,7 @@
 (* code, which wrote in message order.                                        *)
 EXTENDS KeyspaceOps, TLC, Json
 
-CONSTANTS Times, MaxReqs, SortBulk, WithCrash, WithBulk, EmitEdges
+CONSTANTS Times, MaxReqs, SortBulk, WithCrash, WithBulk, WithUniform, EmitEdges
 
 VARIABLES st, store,
           reg,     \* stamp -> "none" | "ins" | "del": what operation a stamp belongs to (stamps identify operations)
@@ -136,12 +136,20 @@ Pairs == { <<k, ts>> : k \in Keys, ts \in Stamps }
 BulkItems == { <<a, b>> : a \in Pairs, b \in Pairs } \cap
              { p \in Pairs \X Pairs : p[1] # p[2] /\ (p[1][1] = p[2][1] => p[1][2] # p[2][2]) }
 
+\* put_many / del_many as clients issue them: several different keys (in key order), one stamp for all
+RECURSIVE KeySeq(_, _)
+KeySeq(S, ts) == IF S = {} THEN <<>>
+                 ELSE LET k == CHOOSE x \in S : \A y \in S : x <= y IN << <<k, ts>> >> \o KeySeq(S \ {k}, ts)
+UniformItems == { KeySeq(S, ts) : S \in { T \in SUBSET Keys : Cardinality(T) >= 2 }, ts \in Stamps }
+
 Next ==
   /\ reqs < MaxReqs
   /\ reqs' = reqs + 1
   /\ \/ \E d \in BOOLEAN, src \in Sources, k \in Keys, ts \in Stamps, o \in {"ok", "fail"} : Single(d, src, k, ts, o)
      \/ WithBulk /\ \E d \in BOOLEAN, src \in Sources, items \in BulkItems : Bulk(d, src, items, "ok", {})
      \/ WithBulk /\ \E d \in BOOLEAN, src \in Sources, items \in BulkItems, W \in SUBSET Keys : Bulk(d, src, items, "fail", W)
+     \/ WithUniform /\ \E d \in BOOLEAN, src \in Sources, items \in UniformItems : Bulk(d, src, items, "ok", {})
+     \/ WithUniform /\ \E d \in BOOLEAN, src \in Sources, items \in UniformItems, W \in SUBSET Keys : Bulk(d, src, items, "fail", W)
      \/ DoPurge("ok", {})
      \/ \E W \in SUBSET Keys : DoPurge("fail", W)
      \/ CrashRestart
